@@ -40,8 +40,19 @@ pub type Body = Box<dyn FnOnce(usize) + Send + 'static>;
 /// under test may hold.  Returns the violated (class, site, detail).
 pub type Invariant = Box<dyn FnMut() -> Option<Violation> + Send + 'static>;
 
+/// How scheduling decisions are *generated* (replay only reads the tape, whatever the strategy was).
+#[derive(Clone, Debug, PartialEq)]
+pub enum Strategy {
+    /// at every point: keep running with probability 1 - switch_num/switch_den, else a uniformly chosen other thread
+    Random,
+    /// PCT-style: random thread priorities, run the highest-priority runnable thread, and at `depth`
+    /// random steps (within the first `horizon` steps) demote the running thread below everybody
+    Pct { depth: u32, horizon: u64 },
+}
+
 #[derive(Clone, Debug)]
 pub struct E1Cfg {
+    pub strategy: Strategy,
     pub max_steps: u64,
     /// probability (num/den) of a context switch at a point where the current thread could continue
     pub switch_num: u64,
@@ -50,8 +61,15 @@ pub struct E1Cfg {
 
 impl Default for E1Cfg {
     fn default() -> Self {
-        E1Cfg { max_steps: 4000, switch_num: 1, switch_den: 3 }
+        E1Cfg { strategy: Strategy::Random, max_steps: 4000, switch_num: 1, switch_den: 3 }
     }
+}
+
+/// Swarm choice of a scheduling strategy for one run.
+pub fn draw_cfg(cfg: &Chan, max_steps: u64) -> E1Cfg {
+    let den = *cfg.pick(&[2u64, 3, 5, 10]);
+    let strategy = if cfg.chance(1, 3) { Strategy::Pct { depth: 1 + cfg.below(3) as u32, horizon: *cfg.pick(&[20u64, 60, 150]) } } else { Strategy::Random };
+    E1Cfg { strategy, max_steps, switch_num: 1, switch_den: den }
 }
 
 #[derive(Debug, Default)]
@@ -86,6 +104,10 @@ struct St {
     violation: Option<Violation>,
     abort: bool,
     abandoned: bool,
+    /// PCT state (generation only)
+    prio: Vec<i64>,
+    change_points: Vec<u64>,
+    low_water: i64,
 }
 
 struct Shared {
@@ -190,6 +212,27 @@ pub fn harness_point(line: u32) {
 impl Shared {
     fn pick(st: &mut St, me: usize, me_ready: bool) -> Option<usize> {
         let others: Vec<usize> = (0..st.status.len()).filter(|&i| i != me && st.status[i] == Status::Ready).collect();
+        if let Strategy::Pct { .. } = st.cfg.strategy {
+            // demotion points
+            if me_ready && st.change_points.contains(&st.step) {
+                st.low_water -= 1;
+                st.prio[me] = st.low_water;
+            }
+            let mut cands: Vec<usize> = vec![];
+            if me_ready {
+                cands.push(me);
+            }
+            cands.extend(others.iter().cloned());
+            if cands.is_empty() {
+                return None;
+            }
+            if cands.len() == 1 {
+                return Some(cands[0]);
+            }
+            let best = (0..cands.len()).max_by_key(|&k| st.prio[cands[k]]).unwrap() as u64;
+            let c = st.sched.decide(cands.len() as u64, |_| best);
+            return Some(cands[c as usize]);
+        }
         if me_ready {
             if others.is_empty() {
                 return Some(me);
@@ -205,9 +248,12 @@ impl Shared {
         }
     }
 
-    /// Any thread that is not done (used while aborting, no tape draw).
+    /// The next thread after `not` (cyclically) that is not done (used while aborting, no tape
+    /// draw).  Cyclic order matters: two threads blocked on a lock held by a third must not
+    /// hand the baton back and forth between themselves.
     fn any_live(st: &St, not: usize) -> Option<usize> {
-        (0..st.status.len()).find(|&i| i != not && st.status[i] != Status::Done)
+        let n = st.status.len();
+        (1..n).map(|k| (not + k) % n).find(|&i| st.status[i] != Status::Done)
     }
 
     fn step(self: &Arc<Self>, me: usize, file: &'static str, line: u32, op: u8, addr: usize, is_blocked: bool) {
@@ -388,9 +434,26 @@ pub fn run_threads(sched: &Chan, cfg: &E1Cfg, bodies: Vec<Body>, inv: Option<Inv
             violation: None,
             abort: false,
             abandoned: false,
+            prio: vec![],
+            change_points: vec![],
+            low_water: 0,
         }),
         cv: Condvar::new(),
     });
+    if let Strategy::Pct { depth, horizon } = cfg.strategy {
+        let mut st = sh.m.lock().unwrap();
+        // priorities: a random permutation, drawn through the tape so that replay sees the same values
+        let mut order: Vec<usize> = (0..n).collect();
+        for i in (1..n).rev() {
+            let j = sched.below(i as u64 + 1) as usize;
+            order.swap(i, j);
+        }
+        st.prio = vec![0; n];
+        for (rank, &t) in order.iter().enumerate() {
+            st.prio[t] = (n - rank) as i64;
+        }
+        st.change_points = (0..depth).map(|_| 1 + sched.below(horizon.max(1))).collect();
+    }
     let mut handles = Vec::new();
     for (i, body) in bodies.into_iter().enumerate() {
         let sh2 = sh.clone();
